@@ -1180,6 +1180,18 @@ fn kinds(prop: &str) -> Vec<CaseFn> {
 
 pub fn run(rep: &mut Report) {
     let ks = kinds(&rep.cfg.prop.clone());
+    if rep.cfg.prop == "C20" {
+        let mut hashes = std::collections::BTreeMap::new();
+        for case in rep.cfg.my_cases() {
+            if rep.full() {
+                break;
+            }
+            let f = ks[(case % ks.len() as u64) as usize];
+            crate::report::guarded_det(rep, case, &mut hashes, &|rep: &mut Report| f(rep, case));
+        }
+        crate::report::push_transcripts(rep, &hashes);
+        return;
+    }
     for case in rep.cfg.my_cases() {
         if rep.full() {
             break;
